@@ -266,8 +266,9 @@ class ContractionTree:
         # whether to keep track of dangling nodes/subgraphs
         self.track_childless = track_childless
         if self.track_childless:
-            # the set of dangling nodes
-            self.childless = oset([self.root])
+            # the set of dangling nodes (n.b. if there is only a single
+            # tensor the root is a leaf, which never needs children)
+            self.childless = oset([self.root] if self.N > 1 else [])
 
         # running largest_intermediate and total flops
         self._track_flops = track_flops
@@ -4064,9 +4065,15 @@ class PartitionTreeBuilder:
                 parts=parts,
                 **partition_opts,
             )
+            groups = separate(leaves, membership)
+            if len(groups) == len(leaves):
+                # no communities found (e.g. no shared indices at all), so
+                # no progress can be made - contract all remaining below
+                break
+
             leaves = [
                 tree.contract_nodes(group, check=check, optimize=sub_optimize)
-                for group in separate(leaves, membership)
+                for group in groups
             ]
 
         if len(leaves) > 1:
